@@ -230,6 +230,7 @@ static void drv_step(struct cmd *c)
 	char *name = 0;
 
 	vf_step();
+	vf_fail_after = -1;
 	if (!strcmp(a, "init")) {
 		size_t n, i;
 		long long *sz = drv_ints(c, "sizes", &n);
@@ -247,11 +248,13 @@ static void drv_step(struct cmd *c)
 		if (!(s = slot_arg(c, "id")) || !s->live) goto bad;
 		data = drv_bytes(c, "data", &dl);
 		name = exact(data, dl, cstr);
+		if (drv_int(c, "fail", 0)) vf_fail_after = 0;     /* the next library allocation fails */
 #ifdef __cplusplus
 		ok = s->id->set_name(name, cstr ? -1 : (int) dl);
 #else
 		ok = mpt_identifier_set(s->id, name, cstr ? -1 : (int) dl) != 0;
 #endif
+		vf_fail_after = -1;
 		answer(c, ok ? "ok" : "refused", 0, 0);
 	}
 	else if (!strcmp(a, "setraw")) {
@@ -267,11 +270,17 @@ static void drv_step(struct cmd *c)
 	else if (!strcmp(a, "copy")) {
 		if (!(s = slot_arg(c, "id")) || !s->live) goto bad;
 		if (!(o = slot_arg(c, "src")) || !o->live) goto bad;
+		if (drv_int(c, "fail", 0)) vf_fail_after = 0;
 #ifdef __cplusplus
 		*s->id = *o->id;
+		vf_fail_after = -1;
 		answer(c, "ok", 0, 0);
 #else
-		answer(c, mpt_identifier_copy(s->id, o->id) ? "ok" : "refused", 0, 0);
+		{
+			void *r = mpt_identifier_copy(s->id, o->id);
+			vf_fail_after = -1;
+			answer(c, r ? "ok" : "refused", 0, 0);
+		}
 #endif
 	}
 	else if (!strcmp(a, "copynull")) {
@@ -346,6 +355,7 @@ static void drv_step(struct cmd *c)
 		s->how = HowTraits;
 		s->node = raw_node(sizeof(struct raw_ident), &s->mem);
 		s->id = IDENT_OF(s->node);
+		if (drv_int(c, "fail", 0)) vf_fail_after = 0;
 #ifdef __cplusplus
 		if (o) new (s->id) mpt::identifier(*o->id);
 		else new (s->id) mpt::identifier();
@@ -353,6 +363,7 @@ static void drv_step(struct cmd *c)
 #else
 		rc = mpt_identifier_traits()->init(s->id, o ? o->id : 0);
 #endif
+		vf_fail_after = -1;
 		s->live = 1;
 		answer(c, rc < 0 ? "refused" : "ok", 0, 0);
 	}
